@@ -13,9 +13,10 @@ import (
 )
 
 // Verification builds only: the environment selects what the hook does.
-//   BM_VERIF_LOG=<file>            append one line per hook point ("<seq> <point>")
-//   BM_VERIF_DELAY=<point>=<dur>,… sleep at the named points (e.g. assigner-notify=20ms), which
-//                                   forces the interleavings in which that operation comes late
+//
+//	BM_VERIF_LOG=<file>            append one line per hook point ("<seq> <point>")
+//	BM_VERIF_DELAY=<point>=<dur>,… sleep at the named points (e.g. assigner-notify=20ms), which
+//	                                forces the interleavings in which that operation comes late
 func init() {
 	logPath := os.Getenv("BM_VERIF_LOG")
 	delaySpec := os.Getenv("BM_VERIF_DELAY")
